@@ -440,6 +440,34 @@ func (h *H) randomViewRead() {
 	}
 }
 
+// midBlock (stage B addition): right after a write, open a view of the latest committed height through
+// one of the lazy-load paths (LoadLazyVersion / CacheMultiStoreWithVersion / PrevCtx) or a height query,
+// and read every store through it completely.
+func (h *H) midBlock(pct int) {
+	if pct == 0 || h.height < 1 || !h.r.Chance(pct, 100) {
+		return
+	}
+	if h.r.Chance(1, 5) {
+		// custom ABCI query at the latest height
+		h.query(h.r.Intn(nStores), h.height, h.key())
+		return
+	}
+	if len(h.views) >= 8 {
+		h.dropView()
+	}
+	kind := []string{"L", "C", "P"}[h.r.Intn(3)]
+	before := len(h.views)
+	h.openView(kind, h.height)
+	if len(h.views) == before {
+		return
+	}
+	v := h.views[len(h.views)-1]
+	for i := 0; i < nStores; i++ {
+		h.vIter(v, i, nil, nil, true)
+	}
+	h.vGet(v, h.r.Intn(nStores), h.key())
+}
+
 func (h *H) fullViewCheck() {
 	vs := append([]*view{}, h.views...)
 	sort.Slice(vs, func(a, b int) bool { return vs[a].id < vs[b].id })
@@ -459,6 +487,7 @@ func main() {
 	iavlCache := flag.Int64("cache", 0, "iavl node cache size (0 = package default)")
 	nkeys := flag.Int("keys", 24, "key space size")
 	ctxCache := flag.Int("ctxcache", 5, "size of sdk.GlobalCtxCache (PrevCtx contexts)")
+	mid := flag.Int("mid", 0, "(stage B addition) percent of writes followed at once by a historical view of the LATEST committed height that is read out completely (mid-block read of the last height while the working stores are dirty)")
 	flag.Parse()
 
 	h := &H{r: gen.New(*seed), t: gen.NewTrace(*out), dirtySince: map[int]int{}}
@@ -512,8 +541,10 @@ func main() {
 				v = []byte{}
 			}
 			h.doSet(h.r.Intn(nStores), h.key(), v)
+			h.midBlock(*mid)
 		case x < 45:
 			h.doDel(h.r.Intn(nStores), h.key())
+			h.midBlock(*mid)
 		case x < 53:
 			h.doCommit()
 		case x < 62:
